@@ -520,16 +520,29 @@ func vp9DecCase(x *Ctx, mk func(c *Case) (vp9Desc, []byte), nCuts int) {
 				}
 				c.Tag("used-receiver")
 			}
-			r := callUnmarshal(p, wire[:k])
+			// The packet sits in the caller's receive buffer, which is reused for the next datagram
+			// as soon as Unmarshal and IsPartitionHead have returned; the decoded values are what the
+			// caller READS from the receiver afterwards, so the metadata tokens are written after
+			// the buffer has been overwritten (the returned payload is snapshotted at once: it is
+			// documented to be a window of the buffer).
+			rxb := cloneBytes(wire)
+			r := callUnmarshal(p, rxb[:k])
 			rz := callUnmarshal(z, cloneBytes(wire[:k]))
 			head := false
-			try(func() { head = p.IsPartitionHead(wire[:k]) })
+			try(func() { head = p.IsPartitionHead(rxb[:k]) })
+			for i := range rxb {
+				rxb[i] ^= 0xA5
+			}
 			r.write(&c.O)
 			if r.err || r.panicked {
 				// a rejected descriptor leaves no metadata the property speaks about; report what a
 				// fresh receiver holds after rejecting the same bytes (that is what the model describes)
 				q := &codecs.VP9Packet{}
-				callUnmarshal(q, wire[:k])
+				qb := cloneBytes(wire)
+				callUnmarshal(q, qb[:k])
+				for i := range qb {
+					qb[i] ^= 0xA5
+				}
 				writeVP9Md(&c.O, q)
 			} else {
 				writeVP9Md(&c.O, p)
